@@ -82,6 +82,35 @@ pub mod p {
     pub struct P { pub a: u32, pub b: u8 }
     pub fn run() { drive(&P { a: 1, b: 2 }) }
 }
+// `repr` hints that are not `C`: the layout stays the default Rust one, so the fields may be
+// reordered (seeded change C17c took a repr made only of align/packed modifiers for repr(C))
+#[cfg(feature = "p_repr_align_only")]
+pub mod p {
+    use super::*;
+    #[derive(Epserde, Clone, Copy)]
+    #[repr(align(8))]
+    #[zero_copy]
+    pub struct P { pub a: u8, pub b: u64, pub c: u8 }
+    pub fn run() { drive(&P { a: 1, b: 2, c: 3 }) }
+}
+#[cfg(feature = "p_repr_packed_only")]
+pub mod p {
+    use super::*;
+    #[derive(Epserde, Clone, Copy)]
+    #[repr(packed)]
+    #[zero_copy]
+    pub struct P { pub a: u8, pub b: u64, pub c: u8 }
+    pub fn run() { drive(&P { a: 1, b: 2, c: 3 }) }
+}
+#[cfg(feature = "p_repr_packed2_only")]
+pub mod p {
+    use super::*;
+    #[derive(Epserde, Clone, Copy)]
+    #[repr(packed(2))]
+    #[zero_copy]
+    pub struct P { pub a: u8, pub b: u64, pub c: u8 }
+    pub fn run() { drive(&P { a: 1, b: 2, c: 3 }) }
+}
 #[cfg(feature = "p_both_attrs")]
 pub mod p {
     use super::*;
@@ -144,7 +173,7 @@ pub mod p {
 }
 
 #[cfg(any(feature = "p_deep_field", feature = "p_ref_field", feature = "p_vec_field", feature = "p_string_field",
-          feature = "p_boxslice_field", feature = "p_no_repr_c", feature = "p_both_attrs", feature = "p_nested_bad", feature = "ok_control",
+          feature = "p_boxslice_field", feature = "p_no_repr_c", feature = "p_repr_align_only", feature = "p_repr_packed_only", feature = "p_repr_packed2_only", feature = "p_both_attrs", feature = "p_nested_bad", feature = "ok_control",
           feature = "p_enum_deep_before_tuple", feature = "p_enum_deep_last", feature = "p_enum_deep_struct_variant"))]
 #[cfg_attr(kani, kani::proof)]
 #[cfg_attr(kani, kani::unwind(5))]
